@@ -159,6 +159,39 @@ def ray_status(t):
 
 
 @op
+def sweep2(t):
+    """one call of the 2-D `sweep` kernel on an arbitrary state (sign array starts as 7 everywhere)"""
+    from fteikpy._fteik._fteik2d import sweep
+    tt = np.array(f64(t["tt"]), dtype=np.float64)
+    slow = f64(t["slow"])
+    nz, nx = tt.shape
+    grad = bool(t["grad"])
+    ttsgn = np.full((nz, nx, 2), 7, dtype=np.int32) if grad else np.empty((0, 0, 0), dtype=np.int32)
+    dz, dx = float(t["dz"]), float(t["dx"])
+    dzi, dxi = 1.0 / dz, 1.0 / dx
+    i, j = int(t["i"]), int(t["j"])
+    sweep(tt, ttsgn, slow, (dz, dx, dzi, dxi, dzi / dz, dxi / dx), float(t["zsi"]), float(t["xsi"]),
+          float(t["zsa"]), float(t["xsa"]), float(t["vzero"]), i, j, *[int(x) for x in t["dir"]], nz, nx, grad)
+    return {"tt": tt, "sgn": np.array(ttsgn[i, j] if grad else (7, 7), dtype=np.int64)}
+
+
+@op
+def sweep3(t):
+    from fteikpy._fteik._fteik3d import sweep
+    tt = np.array(f64(t["tt"]), dtype=np.float64)
+    slow = f64(t["slow"])
+    nz, nx, ny = tt.shape
+    grad = bool(t["grad"])
+    ttsgn = np.full((nz, nx, ny, 3), 7, dtype=np.int32) if grad else np.empty((0, 0, 0, 0), dtype=np.int32)
+    dz, dx, dy = float(t["dz"]), float(t["dx"]), float(t["dy"])
+    dz2i, dx2i, dy2i = 1.0 / dz / dz, 1.0 / dx / dx, 1.0 / dy / dy
+    dargs = (dz, dx, dy, dz2i, dx2i, dy2i, dz2i * dx2i, dz2i * dy2i, dx2i * dy2i, dz2i + dx2i + dy2i)
+    i, j, k = int(t["i"]), int(t["j"]), int(t["k"])
+    sweep(tt, ttsgn, slow, dargs, i, j, k, *[int(x) for x in t["dir"]], nz, nx, ny, grad)
+    return {"tt": tt, "sgn": np.array(ttsgn[i, j, k] if grad else (7, 7, 7), dtype=np.int64)}
+
+
+@op
 def shrink(t):
     from fteikpy._fteik._common import shrink as k
     return {"v": float(k(f64(t["pcur"]), f64(t["delta"]), f64(t["lower"]), f64(t["upper"])))}
